@@ -11,8 +11,11 @@ from sigma.exceptions import (
     SigmaValueError,
     SigmaConfigurationError,
 )
+from sigma.conditions import ConditionAND
+from sigma.rule import SigmaDetectionItem
 from sigma.types import (
     Placeholder,
+    SigmaExpansion,
     SigmaString,
     SigmaType,
     SigmaRegularExpression,
@@ -51,6 +54,28 @@ class BasePlaceholderTransformation(ValueTransformation, PlaceholderIncludeExclu
     def __post_init__(self) -> None:
         self.check_exclusivity()
         return super().__post_init__()
+
+    def apply_detection_item(self, detection_item: SigmaDetectionItem) -> SigmaDetectionItem | None:
+        """
+        The replacements of a placeholder are alternatives for the value that contains it. If the
+        values of the detection item are linked with AND (all modifier), the alternatives of each
+        value are kept together in an expansion, which is OR-linked.
+        """
+        if detection_item.value_linking is not ConditionAND:
+            return super().apply_detection_item(detection_item)
+        results: list[SigmaType] = []
+        modified = False
+        for value in detection_item.value:
+            replaced, value_modified = self._apply_values(detection_item.field, [value])
+            modified = modified or value_modified
+            if len(replaced) > 1:
+                results.append(SigmaExpansion(replaced))
+            else:
+                results.extend(replaced)
+        if modified:
+            detection_item.value = results
+            return detection_item
+        return None
 
     def apply_value(
         self, field: str | None, val: SigmaType
